@@ -173,7 +173,12 @@ def one_operand(ctx, alg, iso, cfg, name, canon, unit):
 
     def isone(e):
         if exact:
-            return not elem_diff(e, one)
+            # exact coefficient types in d <= 5: the products are the scalar 1 *exactly* (Python compares float and Fraction exactly,
+            # so a float result only passes if it carries no rounding error at all)
+            try:
+                return all((v == 1) if k == 0 else (v == 0) for k, v in e.items()) and (0 in e or not e) and e.get(0, 0) == 1
+            except Exception:
+                return False
         return not elem_diff(e, one, tol=1e-7)
     st2, prods = ctx.guarded(to, lambda: (mv_dict(x * xi), mv_dict(xi * x)))
     refl, refr = R.gp(X, XI), R.gp(XI, X)
